@@ -298,17 +298,19 @@ ReplaceMovesRelative(c, p, q, r, o) ==
     /\ IsYes(o.mout)                                           \* equivalent to joining the new folder with it
     /\ Comps(V(o.out)) = Comps(V(o.g)) \o Comps(V(o.rel))         \* names moved exactly, case untouched
 
-\* ---- translation ----
-TranslateRoundTrip(ca, cb, r0, r1, q, o) ==
+\* ---- translation (side 0: a path of side 0 goes to side 1 and back; side 1: the other direction) ----
+TranslateRoundTrip(side, ca, cb, r0, r1, q, o) ==
   (RelOK(ca, q) /\ RelOK(cb, q)) =>
-    /\ IsStr(o.xa) /\ IsStr(o.ba) /\ IsYes(o.mba)
-    /\ IsStr(o.xb) /\ IsStr(o.bb) /\ IsYes(o.mbb)
-TranslateOutsideIsNone(ca, cb, r0, r1, q, o) ==
-  /\ IsStr(o.A) /\ IsStr(o.B) /\ IsStr(o.oa) /\ IsStr(o.ob)
-  /\ ~SemInside(ca, V(o.A), V(o.oa)) => IsNo(o.xoa)
-  /\ ~SemInside(cb, V(o.B), V(o.ob)) => IsNo(o.xob)
-  /\ ~SemInside(ca, V(o.A), q) => IsNo(o.xqa)
-  /\ ~SemInside(cb, V(o.B), q) => IsNo(o.xqb)
+    IF side = 0 THEN IsStr(o.xa) /\ IsStr(o.ba) /\ IsYes(o.mba)
+    ELSE IsStr(o.xb) /\ IsStr(o.bb) /\ IsYes(o.mbb)
+TranslateOutsideIsNone(side, ca, cb, r0, r1, q, o) ==
+  IF side = 0
+  THEN /\ IsStr(o.A) /\ IsStr(o.oa)
+       /\ ~SemInside(ca, V(o.A), V(o.oa)) => IsNo(o.xoa)
+       /\ ~SemInside(ca, V(o.A), q) => IsNo(o.xqa)
+  ELSE /\ IsStr(o.B) /\ IsStr(o.ob)
+       /\ ~SemInside(cb, V(o.B), V(o.ob)) => IsNo(o.xob)
+       /\ ~SemInside(cb, V(o.B), q) => IsNo(o.xqb)
 
 LawsU == {"NormIdem", "SplitJoin", "MatchReflexive", "MatchOwnNormalForm", "CaseRule"}
 LawsB == {"MatchSymmetric", "MatchAgreesNorm", "JoinIsSubpath", "PrefixSiblingNotSubpath"}
@@ -324,9 +326,26 @@ HoldsB(law, c, p, q, o) ==
     [] law = "JoinIsSubpath" -> JoinIsSubpath(c, p, q, o) [] law = "PrefixSiblingNotSubpath" -> PrefixSiblingNotSubpath(c, p, q, o)
 HoldsT(law, c, p, q, r, o) ==
   CASE law = "MatchTransitive" -> MatchTransitive(c, p, q, r, o) [] law = "ReplaceMovesRelative" -> ReplaceMovesRelative(c, p, q, r, o)
-HoldsX(law, ca, cb, r0, r1, q, o) ==
-  CASE law = "TranslateRoundTrip" -> TranslateRoundTrip(ca, cb, r0, r1, q, o)
-    [] law = "TranslateOutsideIsNone" -> TranslateOutsideIsNone(ca, cb, r0, r1, q, o)
+HoldsX(law, side, ca, cb, r0, r1, q, o) ==
+  CASE law = "TranslateRoundTrip" -> TranslateRoundTrip(side, ca, cb, r0, r1, q, o)
+    [] law = "TranslateOutsideIsNone" -> TranslateOutsideIsNone(side, ca, cb, r0, r1, q, o)
+
+\* the observation fields a law reads (with the results they were computed from): an exception is attributed to a law
+\* only when it occurred in one of these
+Reads(law, side) ==
+  CASE law = "NormIdem" -> {"n0", "nn0", "n1", "nn1"}
+    [] law = "SplitJoin" -> {"sd", "sb", "sj", "msj0", "msj1", "dn", "bn"}
+    [] law = "MatchReflexive" -> {"mr0", "mr1"}
+    [] law = "MatchOwnNormalForm" -> {"n0", "n1", "mn0", "mn1"}
+    [] law = "CaseRule" -> {"n0", "n1"}
+    [] law = "MatchSymmetric" -> {"mpq0", "mpq1", "mqp0", "mqp1"}
+    [] law = "MatchAgreesNorm" -> {"np0", "nq0", "np1", "nq1", "mpq0", "mpq1"}
+    [] law = "JoinIsSubpath" -> {"f", "t", "sub", "jr", "mrel", "sroot", "self", "selfs", "subs"}
+    [] law = "PrefixSiblingNotSubpath" -> {"f", "sib", "ssub", "ssubs"}
+    [] law = "MatchTransitive" -> {"mpq0", "mqr0", "mpr0", "mpq1", "mqr1", "mpr1"}
+    [] law = "ReplaceMovesRelative" -> {"f", "g", "t", "rel", "out", "rel2", "mrel", "mout"}
+    [] law = "TranslateRoundTrip" -> IF side = 0 THEN {"A", "B", "ta", "xa", "ba", "mba"} ELSE {"A", "B", "tb", "xb", "bb", "mbb"}
+    [] law = "TranslateOutsideIsNone" -> IF side = 0 THEN {"A", "B", "oa", "xoa", "xqa"} ELSE {"A", "B", "ob", "xob", "xqb"}
 
 \* ============================== Part 4: enumeration ==============================
 CONSTANTS Seps, Cases, Wins,     \* which conventions (subsets of {1,2}, BOOLEAN, BOOLEAN)
@@ -356,5 +375,5 @@ PathsSpec == PathsInit /\ [][PathsNext]_pvars
 DesignU == LET o == ObsU(vc, vp) IN \A law \in LawsU : HoldsU(law, vc, vp, o)
 DesignB == LET o == ObsB(vc, vp, vq) IN \A law \in LawsB : HoldsB(law, vc, vp, vq, o)
 DesignT == LET o == ObsT(vc, vp, vq, vr) IN \A law \in LawsT : HoldsT(law, vc, vp, vq, vr, o)
-DesignX == OneSided \/ LET o == ObsX(vc, vc2, vp, vr, vq) IN \A law \in LawsX : HoldsX(law, vc, vc2, vp, vr, vq, o)
+DesignX == OneSided \/ LET o == ObsX(vc, vc2, vp, vr, vq) IN \A law \in LawsX, side \in {0, 1} : HoldsX(law, side, vc, vc2, vp, vr, vq, o)
 =============================================================================
